@@ -212,6 +212,110 @@ theorem index_map_present (e : Ty) (ks : List String) (vs : List Payload) (k : S
 
 example : lookupKey "b" ["a", "b"] [.s "x", .s "y"] = some (.s "y") := by decide
 
+/-! ### 5. An index lookup succeeds exactly when HasIndex answers true (lists, tuples) -/
+
+/-- Lists, EVERY number key (fractional, negative, huge, infinite included): Index succeeds iff HasIndex is True. -/
+theorem indexOk_iff_hasIndex_list (e : Ty) (vs : List Payload) (x : Num) :
+    (Value.index ⟨.list e, .seq vs⟩ ⟨.number, .n x⟩).isOk = true ↔
+      Value.hasIndex ⟨.list e, .seq vs⟩ ⟨.number, .n x⟩ = .ok (boolVal true) := by
+  rw [index_list_num, hasIndex_list_num]
+  obtain ⟨o, ho⟩ := keyIndex_num_ok .number x
+  rw [ho]
+  cases o with
+  | none => simp [Res.isOk, boolVal]
+  | some i =>
+    simp only [Res.ok.injEq, boolVal, Value.mk.injEq, Payload.b.injEq, true_and, decide_eq_true_eq]
+    by_cases h : i < vs.length
+    · simp [h, Res.isOk]
+    · simp [h, Res.isOk]
+
+/-- Tuples whose payload has as many members as the type has positions, EVERY number key. -/
+theorem indexOk_iff_hasIndex_tuple (es : List Ty) (vs : List Payload) (hl : es.length = vs.length) (x : Num) :
+    (Value.index ⟨.tuple es, .seq vs⟩ ⟨.number, .n x⟩).isOk = true ↔
+      Value.hasIndex ⟨.tuple es, .seq vs⟩ ⟨.number, .n x⟩ = .ok (boolVal true) := by
+  rw [index_tuple_num, hasIndex_tuple_num _ _ rfl]
+  obtain ⟨o, ho⟩ := keyIndex_num_ok .number x
+  rw [ho]
+  cases o with
+  | none => simp [Res.isOk, boolVal]
+  | some i =>
+    simp only [Res.ok.injEq, boolVal, Value.mk.injEq, Payload.b.injEq, true_and, decide_eq_true_eq]
+    by_cases h : i < es.length
+    · have h' : i < vs.length := hl ▸ h
+      simp [h, h', Res.isOk]
+    · simp [h, Res.isOk]
+
+/-- The length hypothesis is needed: on a (malformed) tuple value with fewer members than
+positions HasIndex answers True where Index panics. -/
+theorem indexOk_iff_hasIndex_tuple_short_counterexample :
+    Value.index ⟨.tuple [.string], .seq []⟩ (intVal (0 : Nat)) = .panic "index out of range" ∧
+    Value.hasIndex ⟨.tuple [.string], .seq []⟩ (intVal (0 : Nat)) = .ok (boolVal true) := by
+  constructor <;> decide
+
+/-- Lists, any unmarked known key of a type other than the dynamic pseudo-type (string,
+bool, collection keys: Index panics, HasIndex answers False; a null number: both panic). -/
+theorem indexOk_iff_hasIndex_list_key (e : Ty) (vs : List Payload) (k : Value)
+    (hm : k.isMarked = false) (hk : k.isKnown = true) (hd : k.ty.isDyn = false) :
+    (Value.index ⟨.list e, .seq vs⟩ k).isOk = true ↔
+      Value.hasIndex ⟨.list e, .seq vs⟩ k = .ok (boolVal true) := by
+  have h1 : (⟨.list e, .seq vs⟩ : Value).isMarked = false := rfl
+  have h2 : (⟨.list e, .seq vs⟩ : Value).isKnown = true := rfl
+  have h3 : (Ty.list e).isDyn = false := rfl
+  simp only [Value.index, Value.hasIndex, binMarks, h1, hm, Bool.or_self, Bool.false_eq_true, if_false,
+    indexU, hasIndexU, h3, hd, hk, h2, Bool.not_true]
+  by_cases hn : k.ty.isNumber = true
+  · simp only [hn, Bool.not_true, Bool.false_eq_true, if_false, bind, Res.bind]
+    cases hki : keyIndex k with
+    | ok o =>
+      cases o with
+      | none => simp [Res.isOk, boolVal]
+      | some i =>
+        by_cases h : i < vs.length
+        · simp [h, Res.isOk]
+        · simp [h, Res.isOk, boolVal]
+    | err c => simp [Res.isOk]
+    | panic w => simp [Res.isOk]
+    | unmodelled => simp [Res.isOk]
+  · simp [hn, Res.isOk, boolVal]
+
+/-- Tuples (as many members as positions), any unmarked known key of a non-dynamic type. -/
+theorem indexOk_iff_hasIndex_tuple_key (es : List Ty) (vs : List Payload) (hl : es.length = vs.length) (k : Value)
+    (hm : k.isMarked = false) (hk : k.isKnown = true) (hd : k.ty.isDyn = false) :
+    (Value.index ⟨.tuple es, .seq vs⟩ k).isOk = true ↔
+      Value.hasIndex ⟨.tuple es, .seq vs⟩ k = .ok (boolVal true) := by
+  have h1 : (⟨.tuple es, .seq vs⟩ : Value).isMarked = false := rfl
+  have h2 : (⟨.tuple es, .seq vs⟩ : Value).isKnown = true := rfl
+  have h3 : (Ty.tuple es).isDyn = false := rfl
+  simp only [Value.index, Value.hasIndex, binMarks, h1, hm, Bool.or_self, Bool.false_eq_true, if_false,
+    indexU, hasIndexU, h3, hd, hk, h2, Bool.not_true]
+  by_cases hn : k.ty.isNumber = true
+  · simp only [hn, Bool.not_true, Bool.false_eq_true, if_false, bind, Res.bind]
+    cases hki : keyIndex k with
+    | ok o =>
+      cases o with
+      | none => simp [Res.isOk, boolVal]
+      | some i =>
+        by_cases h : i < es.length
+        · have h' : i < vs.length := hl ▸ h
+          simp [h, h', Res.isOk]
+        · simp [h, Res.isOk, boolVal]
+    | err c => simp [Res.isOk]
+    | panic w => simp [Res.isOk]
+    | unmodelled => simp [Res.isOk]
+  · simp [hn, Res.isOk, boolVal]
+
+/-- The key must be known and not dynamically typed: an unknown number key makes Index
+succeed (with an unknown member) while HasIndex answers the unknown bool. -/
+theorem indexOk_iff_hasIndex_unknown_key_counterexample :
+    Value.index ⟨.list .string, .seq [.s "a"]⟩ ⟨.number, .unk .unref⟩ = .ok (unknown .string) ∧
+    Value.hasIndex ⟨.list .string, .seq [.s "a"]⟩ ⟨.number, .unk .unref⟩ = .ok unkBool := by
+  constructor <;> rfl
+
+example : (⟨.string, .s "a"⟩ : Value).isMarked = false ∧ (⟨.string, .s "a"⟩ : Value).isKnown = true ∧
+    (⟨.string, .s "a"⟩ : Value).ty.isDyn = false := by decide
+example : Value.hasIndex ⟨.list .string, .seq [.s "a", .s "b"]⟩ ⟨.number, .n (.fin false 1 (-1) 53)⟩ = .ok (boolVal false) := by
+  decide
+
 /-! ### 4. Length -/
 
 /-- Length of a tuple is the number of element types, whatever the payload. -/
